@@ -525,8 +525,46 @@ fn sanity(n: u64, seed: u64) {
     );
 }
 
+// ---- perf (not a check): layered Ephemerals `width` x `depth` above one Output D that also depends on an Always job X,
+// with an up-to-date sibling consumer W of the first layer; second evaluation with X changed.  Prints wall time.
+fn perf(width: usize, depth: usize) {
+    let mut w = World::new();
+    for l in 0..depth {
+        for k in 0..width {
+            w.node(&format!("E{}_{}", l, k), JobKind::Ephemeral);
+        }
+    }
+    w.node("D", JobKind::Output).node("X", JobKind::Always).node("W", JobKind::Output);
+    for l in 1..depth {
+        for k in 0..width {
+            for k2 in 0..width {
+                w.edge(&format!("E{}_{}", l - 1, k2), &format!("E{}_{}", l, k));
+            }
+        }
+    }
+    for k in 0..width {
+        w.edge(&format!("E{}_{}", depth - 1, k), "D");
+        w.edge(&format!("E0_{}", k), "W");
+    }
+    w.edge("X", "D");
+    let t0 = std::time::Instant::now();
+    let o1 = w.run(&|j| format!("{}-v1", j), &[]);
+    let t1 = t0.elapsed();
+    let t0 = std::time::Instant::now();
+    let o2 = w.run(&|j| if j == "X" { "X-v2".to_string() } else { format!("{}-v1", j) }, &[]);
+    let t2 = t0.elapsed();
+    println!("perf width={} depth={} first: {:?} started={} errors={:?}; second: {:?} started={} errors={:?}",
+        width, depth, t1, o1.started.len(), &o1.errors, t2, o2.started.len(), &o2.errors);
+}
+
 fn main() {
     let which: Vec<String> = std::env::args().skip(1).collect();
+    if which.first().map(|x| x == "perf").unwrap_or(false) {
+        let wd = which.get(1).and_then(|x| x.parse().ok()).unwrap_or(2);
+        let dp = which.get(2).and_then(|x| x.parse().ok()).unwrap_or(10);
+        perf(wd, dp);
+        return;
+    }
     if which.first().map(|x| x == "sanity").unwrap_or(false) {
         std::panic::set_hook(Box::new(|_| {}));
         let n = which.get(1).and_then(|x| x.parse().ok()).unwrap_or(1000);
